@@ -137,6 +137,9 @@ func (m *Model) MatchPrefix(obs map[string][]byte, lo, hi int) (k int, ok bool, 
 	if lo < 0 {
 		lo = 0
 	}
+	if hi < lo {
+		return -1, false, "empty window"
+	}
 	for k = hi; k >= lo; k-- {
 		if EqualState(obs, m.states[k]) == "" {
 			return k, true, ""
@@ -162,4 +165,46 @@ func DescribeState(m map[string][]byte) string {
 		fmt.Fprintf(&b, "%s=%s ", Q(kv.Key), Q(kv.Val))
 	}
 	return b.String()
+}
+
+// MatchPartialStep reports whether obs equals state[k-1] plus a strict,
+// non-empty prefix of the writes of step k (in issue order or in key order,
+// the order a transaction commit logs them), for some k in [lo,hi].
+func (m *Model) MatchPartialStep(obs map[string][]byte, lo, hi int) (k, j int, ok bool) {
+	if lo < 1 {
+		lo = 1
+	}
+	if hi > m.Len() {
+		hi = m.Len()
+	}
+	for k = lo; k <= hi; k++ {
+		ws := m.steps[k]
+		if len(ws) < 2 {
+			continue
+		}
+		sorted := append([]W(nil), ws...)
+		sort.SliceStable(sorted, func(a, b int) bool { return bytes.Compare(sorted[a].Key, sorted[b].Key) < 0 })
+		for _, order := range [][]W{ws, sorted} {
+			st := make(map[string][]byte, len(m.states[k-1]))
+			for kk, v := range m.states[k-1] {
+				st[kk] = v
+			}
+			for j = 1; j < len(order); j++ {
+				w := order[j-1]
+				if w.Del {
+					delete(st, string(w.Key))
+				} else {
+					v := w.Val
+					if v == nil {
+						v = []byte{}
+					}
+					st[string(w.Key)] = v
+				}
+				if EqualState(obs, st) == "" && EqualState(obs, m.states[k]) != "" {
+					return k, j, true
+				}
+			}
+		}
+	}
+	return 0, 0, false
 }
